@@ -79,7 +79,10 @@ def par(a, desc):
         return {"t": "switch", "acs": [par(x[1], desc) for x in a["cases"]]}
     if t == "chordv1":
         g = desc["chords"][a["group"]]
-        return {"t": "chordv1", "acs": [par(out, desc) for (ks, out) in g["chords"] if a["key"] in ks]}
+        mine = [(ks, out) for (ks, out) in g["chords"] if a["key"] in ks]
+        # the chord keys are named after the physical keys they sit on
+        return {"t": "chordv1", "acs": [par(out, desc) for (ks, out) in mine], "kss": [[c(k) for k in ks] for (ks, out) in mine],
+                "others": [par(out, desc) for (ks, out) in g["chords"] if a["key"] not in ks]}
     if t == "unmod":
         return {"t": "unmod", "ks": [c(k) for k in a["ks"]]}
     if t in ("src", "trans"):
@@ -114,9 +117,10 @@ def params_of(desc):
         for k in desc["keys"]:
             a = par(layer.get(k, TR), desc)
             # chords v2 (text level): a key of a v2 chord can, besides its layer action, put the chord's output down
-            v2 = [par(o, desc) for (ks, o) in desc.get("chordsv2", []) if k in ks]
+            v2 = [(ks, o) for (ks, o) in desc.get("chordsv2", []) if k in ks]
             if v2:
-                a = {"t": "multi", "acs": [a, {"t": "chordv1", "acs": v2}]}
+                a = {"t": "multi", "acs": [a, {"t": "chordv1", "acs": [par(o, desc) for (ks, o) in v2],
+                                              "kss": [[c(q) for q in ks] for (ks, o) in v2], "others": []}]}
             row.append({"c": c(k), "a": a})
         layers.append(row)
 
@@ -150,28 +154,38 @@ def family(tier, rng):
 
     def add(name, keys, layers, qmax=3, **kw):
         d = {"keys": list(keys), "layers": layers, "defcfg": dict(kw.pop("defcfg", {}))}
+        io = {"qmax": qmax}
+        if "track_hist" in kw:      # switch conditions on held keys only: the key history need not be in the model state
+            io["track_hist"] = kw.pop("track_hist")
+        if "os_bound" in kw:        # re-pressing a one-shot key stacks coordinates (16-entry ring): bounded as in C06
+            n = kw.pop("os_bound")
+            io["constraint"] = "OsBound"
+            io["bound_defs"] = "OsBound == Len(K.L.os.keys) <= %d /\\ Len(K.L.os.other) <= %d /\\ Len(K.L.os.released) <= %d\n" % (n, n, n)
         d.update(kw)
-        F.append((name, d, qmax))
+        F.append((name, d, io))
 
     X, Y, Z, W = K("x"), K("y"), K("z"), K("w")
     SX = CH(["lsft"], "x")
     # plain key / output chord / multi on two layers; the table lookup must use the held layer
-    add("layers_chord", "abc", [{"a": X, "b": LWH(1), "c": SX}, {"a": CH(["lctl"], "z"), "b": TR, "c": MULTI(K("lalt"), Y)}])
+    add("layers_chord", "abc", [{"a": X, "b": LWH(1), "c": SX}, {"a": CH(["lctl"], "z"), "b": TR, "c": MULTI(K("lalt"), Y)}], qmax=2)
     # tap-hold whose hold is the shifted tap key (auto-shift style) next to a plain key
-    add("th_autoshift", "ab", [{"a": TH(X, SX, 3), "b": Y}])
-    add("th_chord_to", "ab", [{"a": TH(CH(["lctl"], "x"), K("lsft"), 3, to=Z, variant="tap-hold-release-timeout"), "b": Y}])
+    add("th_autoshift", "ab", [{"a": TH(X, SX, 2), "b": Y}], qmax=2)
+    add("th_chord_to", "ab", [{"a": TH(CH(["lctl"], "x"), K("lsft"), 2, to=Z, variant="tap-hold-release-timeout"), "b": Y}], qmax=2)
     # fork and switch: the branch taken depends on a held modifier
     add("fork_switch", "abc", [{"a": FORK(X, CH(["lctl"], "y"), ["lsft"]), "b": K("lsft"),
-                                "c": SW(("(lsft)", Z, "break"), ("()", W, "break"))}])
+                                "c": SW(("(lsft)", Z, "break"), ("()", W, "break"))}], qmax=2, track_hist=False)
     # tap-dance and one-shot
-    add("td_os", "ab", [{"a": TD(3, X, CH(["lctl"], "y")), "b": OS(4, K("lsft"))}])
-    add("os_chord_tde", "ab", [{"a": OS(3, CH(["lctl"], "lalt")), "b": TDE(3, X, Y)}])
+    add("td_chord", "ab", [{"a": TD(2, X, CH(["lctl"], "y")), "b": Z}], qmax=2)
+    add("os_chord", "ab", [{"a": OS(3, CH(["lctl"], "lalt")), "b": X}], qmax=2, os_bound=2)
+    if tier == "thorough":
+        add("td_os", "ab", [{"a": TD(3, X, CH(["lctl"], "y")), "b": OS(4, K("lsft"))}], qmax=2, os_bound=2)
+        add("os_chord_tde", "ab", [{"a": OS(3, CH(["lctl"], "lalt")), "b": TDE(3, X, Y)}], qmax=2, os_bound=2)
     # input chords v1
     add("chordv1", "ab", [{"a": CHV1("g", "a"), "b": CHV1("g", "b")}],
-        chords={"g": {"T": 3, "chords": [(["a"], X), (["b"], Y), (["a", "b"], CH(["lsft"], "z"))]}})
+        qmax=2, chords={"g": {"T": 2, "chords": [(["a"], X), (["b"], Y), (["a", "b"], CH(["lsft"], "z"))]}})
     # unmod / unshift, use-defsrc, transparent fall-through (incl. nested)
     add("unmod_src_trans", "abc", [{"a": UNMOD("x"), "b": LWH(1), "c": TR},
-                                   {"a": SRC, "b": TR, "c": MULTI(K("lsft"), TR)}])
+                                   {"a": SRC, "b": TR, "c": MULTI(K("lsft"), TR)}], qmax=2)
     if tier == "thorough":
         add("unshift_multi", "abc", [{"a": MULTI(K("lsft"), UNSHIFT("x")), "b": K("lsft"), "c": UNMOD("y", "z")}])
         add("overrides", "abc", [{"a": X, "b": K("lsft"), "c": SX}], overrides=[(["lsft", "x"], ["y"])])
@@ -200,8 +214,9 @@ def family(tier, rng):
                 if on == "os" and ln in ("unmod",):
                     continue
                 act = of(leaf)
-                add("n_%s_%s_l0" % (on, ln), "abc", [{"a": act, "b": K("lsft"), "c": LWH(1)}, {"a": W, "b": TR, "c": TR}], qmax=2)
-                add("n_%s_%s_l1" % (on, ln), "abc", [{"a": W, "b": K("lsft"), "c": LWH(1)}, {"a": act, "b": TR, "c": TR}], qmax=2)
+                kw = {"os_bound": 2} if on == "os" else {}
+                add("n_%s_%s_l0" % (on, ln), "abc", [{"a": act, "b": K("lsft"), "c": LWH(1)}, {"a": W, "b": TR, "c": TR}], qmax=2, track_hist=False, **kw)
+                add("n_%s_%s_l1" % (on, ln), "abc", [{"a": W, "b": K("lsft"), "c": LWH(1)}, {"a": act, "b": TR, "c": TR}], qmax=2, track_hist=False, **kw)
     return F
 
 
@@ -212,6 +227,9 @@ Repeat(c) == /\ Alive /\ c \in phys
              /\ mon' = Mon!MonIn(mon, [e |-> "r", c |-> c, out |-> K'.out])
              /\ hist' = Append(hist, <<"r", c>>)
 '''
+# K.out is cleared at the start of every step, so it cannot influence the future: hiding it makes an accepted
+# repeat a self-loop of the state graph (its edge is still printed and replayed on the code)
+VIEW = "<<[K EXCEPT !.out = <<>>], phys, mon>>"
 KR_PROBE = r'''
 \* binding A cross-check: the parser's KeyOutputs table against the collection specified in KeyRepeat.tla
 KrProbe == hist # <<>> \/ KrTableDiff = {} \/
@@ -263,14 +281,16 @@ def run(tier, seed):
     wd = workdir("c14")
     jobs_random, witness_jobs = [], []
     table_diffs = 0
-    for name, desc, qmax in family(tier, rng):
+    for name, desc, io in family(tier, rng):
         kbd = render_kbd(desc)
         params = params_of(desc)
         keys = [cfgdesc.code(k) for k in desc["keys"]]
-        inst = {"name": "c14_" + name, "kbd": kbd, "keys": keys, "qmax": qmax,
+        inst = {"name": "c14_" + name, "kbd": kbd, "keys": keys,
                 "monitor": {"module": "P_C14", "params": params},
                 "extra_actions": REPEAT_ENV, "extra_next": "\\/ (\\E c \\in EnvKeys : Repeat(c))",
-                "extra_defs": KR_PROBE, "invariants": ["StutterProbe", "KrProbe"]}
+                "view": VIEW, "extra_defs": KR_PROBE, "invariants": ["StutterProbe", "KrProbe"]}
+        inst.update(io)
+        inst["extra_defs"] = KR_PROBE + inst.pop("bound_defs", "")
         r = mc.check_instance(inst, wd, workers=8, timeout=1500)
         res.add_instance(r)
         nd = extract_prints(r["tlc_out"], "KRDIFF", os.path.join(wd, "c14_%s.krdiff.json" % name))
